@@ -17,7 +17,9 @@
     - [KDrainCancelRest] at the deadline event's time, or, without a deadline
       event, when every request of the snapshot has ended or been cancelled by
       another Drain, at the time of the last such end, and <= mark + timeout;
-    - the restore [KStateSet t TDraining orig] at the time of the cancel-rest;
+    - the restore [KStateSet t _ orig] at the time of the cancel-rest; [orig], the state
+      the call found, is not "draining" (enforced also after a [KParked]); the state it
+      overwrites need not be "draining" (a probe may have flipped it, finding D12);
     - a Drain call begins at the time of the last own step of a command that is
       in its drain phase and has the same drain timeout.
     [pinned = true] is the rule variant of the code before fix 3d904ad (D4):
@@ -511,11 +513,15 @@ Definition step_gen (pinned : bool) (st0 : state) (e : event) : option state :=
       end
     | None => None
     end
-  | KStateSet t _ _ =>
+  | KStateSet t _ new =>
     match nget (drains st) g with
     | Some d =>                                           (* end of this goroutine's Drain call: restore *)
       match d_cancel d with
       | Some ct =>
+        (* the restore never sets "draining": Drain returns at once when the state it found was
+           "draining", and a goroutine inside Drain does no other state-set (its mark comes
+           before its KDrainBegin, when it has no open call yet) *)
+        if tstate_eqb new TDraining then None else
         if Nat.eqb (d_t d) t && (parks st || (now =? ct)) then
           match notify st d now with
           | Some cs => Some (upd_drains (upd_cmds st cs) (ndel (drains st) g))
